@@ -61,8 +61,14 @@ theorem St.setCell_lookup_other (s : St) (k k' : Key) (c : Cell) (h : k' ≠ k) 
 
 /-! ## A generic induction over `eval` -/
 
-/-- Relations between the state before and after an evaluation that `eval` establishes. -/
-structure MapRel (env : Env) (R : St → St → Prop) : Prop where
+/-- the cell `get_or_insert` creates (`add_any`) -/
+def insertedCell (env : Env) (key : Key) (v : Val) (addr : Nat) : Cell :=
+  { val := v, dyn := insertedEntryDynamic (env.types key.ty).hot env.hasReloader,
+    rid := ReloadId_NEVER, flag := false, addr := addr }
+
+/-- Relations between the state before and after an evaluation that `eval` establishes for loaders
+that do not call `get_or_insert`. -/
+structure MapRel₀ (env : Env) (R : St → St → Prop) : Prop where
   refl : ∀ s, R s s
   trans : ∀ {a b c}, R a b → R b c → R a c
   /-- only the map matters -/
@@ -70,13 +76,39 @@ structure MapRel (env : Env) (R : St → St → Prop) : Prop where
   /-- the insertion (keep-first) of a freshly loaded cell -/
   ins : ∀ (s : St) (key : Key) (v : Val) (addr : Nat), R s (s.insertKeepFirst key (newCell env key.ty v addr)).1
 
-namespace MapRel
+/-- Relations between the state before and after an evaluation that `eval` establishes (every loader). -/
+structure MapRel (env : Env) (R : St → St → Prop) : Prop extends MapRel₀ env R where
+  /-- the insertion (keep-first) of a cell handed to `get_or_insert` (by a loader) -/
+  insAny : ∀ (s : St) (key : Key) (v : Val) (addr : Nat), R s (s.insertKeepFirst key (insertedCell env key v addr)).1
+
+/-- Loader programs that never call `get_or_insert` themselves. -/
+inductive Prog.NoInsert : Prog → Prop
+  | ret (v : Val) : NoInsert (.ret v)
+  | fail (e : LErr) : NoInsert (.fail e)
+  | panic : NoInsert .panic
+  | read (id ext : String) (k : Except IoErr (List UInt8) → Prog) : (∀ r, NoInsert (k r)) → NoInsert (.read id ext k)
+  | readDir (id : String) (k : Except IoErr (List DirEnt) → Prog) : (∀ r, NoInsert (k r)) → NoInsert (.readDir id k)
+  | load (key : Key) (k : Except LErr Val → Prog) : (∀ r, NoInsert (k r)) → NoInsert (.load key k)
+  | getCached (key : Key) (k : Option Val → Prog) : (∀ r, NoInsert (k r)) → NoInsert (.getCached key k)
+  | loadOwned (key : Key) (k : Except LErr Val → Prog) : (∀ r, NoInsert (k r)) → NoInsert (.loadOwned key k)
+  | noRecord (body : Prog) (k : Except LErr Val → Prog) : NoInsert body → (∀ r, NoInsert (k r)) → NoInsert (.noRecord body k)
+  | onThread (body : Prog) (k : Except LErr Val → Prog) : NoInsert body → (∀ r, NoInsert (k r)) → NoInsert (.onThread body k)
+  | tick (k : Option Bool → Prog) : (∀ r, NoInsert (k r)) → NoInsert (.tick k)
+  | tryCatch (body : Prog) (k : Option (Except LErr Val) → Prog) : NoInsert body → (∀ r, NoInsert (k r)) → NoInsert (.tryCatch body k)
+
+/-- no loader of the type table calls `get_or_insert` -/
+def Env.NoInsert (env : Env) : Prop := ∀ ty id, ((env.types ty).prog id).NoInsert
+
+theorem Prog.NoInsert.ret' (r : Except LErr Val) : (Prog.ret' r).NoInsert := by
+  cases r <;> constructor
+
+namespace MapRel₀
 variable {env : Env} {R : St → St → Prop}
 
-theorem of_map_eq (h : MapRel env R) {s t : St} (e : t.map = s.map) : R s t :=
+theorem of_map_eq (h : MapRel₀ env R) {s t : St} (e : t.map = s.map) : R s t :=
   h.congr rfl e (h.refl s)
 
-theorem withFrame_rel (h : MapRel env R) (push frame) (body : St → St × Outcome) (s : St)
+theorem withFrame_rel (h : MapRel₀ env R) (push frame) (body : St → St × Outcome) (s : St)
     (hb : ∀ s, R s (body s).1) : R s (withFrame push frame body s).1 := by
   unfold withFrame
   split
@@ -84,12 +116,12 @@ theorem withFrame_rel (h : MapRel env R) (push frame) (body : St → St × Outco
       rfl rfl (hb _)
   · exact hb s
 
-theorem onFreshThread_rel (h : MapRel env R) (body : St → St × Outcome) (s : St)
+theorem onFreshThread_rel (h : MapRel₀ env R) (body : St → St × Outcome) (s : St)
     (hb : ∀ s, R s (body s).1) : R s (onFreshThread body s).1 := by
   unfold onFreshThread
   exact h.congr (s := { s with recs := [] }) (t := (body { s with recs := [] }).1) rfl rfl (hb _)
 
-theorem loadAndRecord_rel (h : MapRel env R) (body : St → St × Outcome) (key : Key) (s : St)
+theorem loadAndRecord_rel (h : MapRel₀ env R) (body : St → St × Outcome) (key : Key) (s : St)
     (hb : ∀ s, R s (body s).1) : R s (loadAndRecord env body key s).1 := by
   unfold loadAndRecord
   have hf := h.withFrame_rel (recordsAsset (env.types key.ty).hot env.hasReloader) (some []) body s hb
@@ -105,7 +137,7 @@ theorem loadAndRecord_rel (h : MapRel env R) (body : St → St × Outcome) (key 
   | panicked => exact hf
   | diverged => exact hf
 
-theorem cont_rel (h : MapRel env R) (o : Outcome) (s : St) (k : Except LErr Val → St → St × Outcome) (wrap)
+theorem cont_rel (h : MapRel₀ env R) (o : Outcome) (s : St) (k : Except LErr Val → St → St × Outcome) (wrap)
     (hk : ∀ r s, R s (k r s).1) : R s (cont o s k wrap).1 := by
   unfold cont
   cases o with
@@ -113,6 +145,95 @@ theorem cont_rel (h : MapRel env R) (o : Outcome) (s : St) (k : Except LErr Val 
   | err e => exact hk _ _
   | panicked => exact h.refl s
   | diverged => exact h.refl s
+
+/-- Every `MapRel₀` holds across every evaluation of a loader that does not call `get_or_insert`, under a type
+table whose loaders do not either. -/
+theorem eval_rel (h : MapRel₀ env R) (henv : env.NoInsert) : ∀ f s p, p.NoInsert → R s (eval env f s p).1 := by
+  intro f
+  induction f with
+  | zero => intro s p _; simp only [eval]; exact h.refl s
+  | succ f ih =>
+    intro s p hp
+    cases hp with
+    | ret v => simp only [eval]; exact h.refl s
+    | fail e => simp only [eval]; exact h.refl s
+    | panic => simp only [eval]; exact h.refl s
+    | read id ext k hk =>
+      simp only [eval]
+      exact h.trans (h.of_map_eq (by simp)) (ih _ _ (hk _))
+    | readDir id k hk =>
+      simp only [eval]
+      exact h.trans (h.of_map_eq (by simp)) (ih _ _ (hk _))
+    | getCached key k hk =>
+      simp only [eval]
+      exact h.trans (h.of_map_eq (by simp)) (ih _ _ (hk _))
+    | tick k hk =>
+      simp only [eval]
+      exact h.trans (b := { s with loads := s.loads + 1 }) (h.of_map_eq rfl) (ih _ _ (hk _))
+    | tryCatch body k hbody hk =>
+      simp only [eval]
+      have hb := ih s body hbody
+      generalize eval env f s body = r at hb ⊢
+      obtain ⟨s1, o⟩ := r
+      cases o with
+      | ok v => exact h.trans hb (ih _ _ (hk _))
+      | err e => exact h.trans hb (ih _ _ (hk _))
+      | panicked => exact h.trans hb (ih _ _ (hk _))
+      | diverged => exact hb
+    | noRecord body k hbody hk =>
+      simp only [eval]
+      have hf : R s (withFrame true none (fun s => eval env f s body) s).1 :=
+        h.withFrame_rel _ _ _ _ (fun s => ih s body hbody)
+      generalize withFrame true none (fun s => eval env f s body) s = r at hf ⊢
+      obtain ⟨s1, o, d⟩ := r
+      exact h.trans hf (h.cont_rel o s1 _ _ (fun r s => ih s (k r) (hk r)))
+    | onThread body k hbody hk =>
+      simp only [eval]
+      have hf : R s (onFreshThread (fun s => eval env f s body) s).1 :=
+        h.onFreshThread_rel _ _ (fun s => ih s body hbody)
+      generalize onFreshThread (fun s => eval env f s body) s = r at hf ⊢
+      obtain ⟨s1, o⟩ := r
+      exact h.trans hf (h.cont_rel o s1 _ _ (fun r s => ih s (k r) (hk r)))
+    | loadOwned key k hk =>
+      simp only [eval]
+      refine h.trans (b := s.record (recordsAsset (env.types key.ty).hot env.hasReloader) (.asset key))
+        (h.of_map_eq (by simp)) ?_
+      generalize s.record _ _ = s'
+      have hf : R s' (loadAndRecord env (fun s => eval env f s ((env.types key.ty).prog key.id)) key s').1 :=
+        h.loadAndRecord_rel _ _ _ (fun s => ih s _ (henv _ _))
+      generalize loadAndRecord env _ key s' = r at hf ⊢
+      obtain ⟨s1, o⟩ := r
+      cases o with
+      | ok v => exact h.trans hf (h.trans (b := s1.handOut key.ty) (h.of_map_eq rfl) (ih _ _ (hk _)))
+      | err e => exact h.trans hf (h.cont_rel _ s1 _ _ (fun r s => ih s (k r) (hk r)))
+      | panicked => exact h.trans hf (h.cont_rel _ s1 _ _ (fun r s => ih s (k r) (hk r)))
+      | diverged => exact h.trans hf (h.cont_rel _ s1 _ _ (fun r s => ih s (k r) (hk r)))
+    | load key k hk =>
+      simp only [eval]
+      refine h.trans (b := s.record (recordsAsset (env.types key.ty).hot env.hasReloader) (.asset key))
+        (h.of_map_eq (by simp)) ?_
+      generalize s.record _ _ = s'
+      cases hl : s'.lookup key with
+      | some c => simp only []; exact ih _ _ (hk _)
+      | none =>
+        simp only []
+        have hf : R s' (loadAndRecord env (fun s => eval env f s ((env.types key.ty).prog key.id)) key s').1 :=
+          h.loadAndRecord_rel _ _ _ (fun s => ih s _ (henv _ _))
+        generalize loadAndRecord env _ key s' = r at hf ⊢
+        obtain ⟨s1, o⟩ := r
+        cases o with
+        | ok v =>
+          simp only []
+          refine h.trans hf (h.trans ?_ (ih _ _ (hk _)))
+          exact h.trans (h.ins s1 key v s1.next) (h.of_map_eq rfl)
+        | err e => exact h.trans hf (h.cont_rel _ s1 _ _ (fun r s => ih s (k r) (hk r)))
+        | panicked => exact h.trans hf (h.cont_rel _ s1 _ _ (fun r s => ih s (k r) (hk r)))
+        | diverged => exact h.trans hf (h.cont_rel _ s1 _ _ (fun r s => ih s (k r) (hk r)))
+
+end MapRel₀
+
+namespace MapRel
+variable {env : Env} {R : St → St → Prop}
 
 /-- Every `MapRel` holds across every evaluation. -/
 theorem eval_rel (h : MapRel env R) : ∀ f s p, R s (eval env f s p).1 := by
@@ -134,6 +255,17 @@ theorem eval_rel (h : MapRel env R) : ∀ f s p, R s (eval env f s p).1 := by
     | getCached key k =>
       simp only [eval]
       exact h.trans (h.of_map_eq (by simp)) (ih _ _)
+    | getOrInsert key v k =>
+      simp only [eval]
+      refine h.trans (b := s.record (recordsAsset (env.types key.ty).hot env.hasReloader) (.asset key))
+        (h.of_map_eq (by simp)) ?_
+      generalize s.record _ _ = s'
+      cases hl : s'.lookup key with
+      | some c => simp only []; exact h.trans (b := s'.handOut key.ty) (h.of_map_eq rfl) (ih _ _)
+      | none =>
+        simp only []
+        refine h.trans ?_ (ih _ _)
+        exact h.trans (h.insAny s' key v s'.next) (h.of_map_eq rfl)
     | tick k =>
       simp only [eval]
       exact h.trans (b := { s with loads := s.loads + 1 }) (h.of_map_eq rfl) (ih _ _)
@@ -216,8 +348,10 @@ theorem Added.trans {P} {a b c : St} (h1 : Added P a b) (h2 : Added P b c) : Add
 theorem Added.of_map_eq {P} {s t : St} (e : t.map = s.map) : Added P s t := by
   intro k c h; left; rw [← St.lookup_congr e k]; exact h
 
-/-- `P` holds of every cell a load creates under `env`. -/
-def NewCellsSat (env : Env) (P : Key → Cell → Prop) : Prop := ∀ key v addr, P key (newCell env key.ty v addr)
+/-- `P` holds of every cell an evaluation creates under `env`: by a load (`newCell`) or by a loader's
+`get_or_insert` (`insertedCell`). -/
+def NewCellsSat (env : Env) (P : Key → Cell → Prop) : Prop :=
+  (∀ key v addr, P key (newCell env key.ty v addr)) ∧ ∀ key v addr, P key (insertedCell env key v addr)
 
 /-- keep-first insertion of a cell satisfying `P` -/
 theorem Added.ins_cell {P : Key → Cell → Prop} (s : St) (key : Key) (c0 : Cell) (h0 : P key c0) :
@@ -252,6 +386,15 @@ theorem Added.mapRel {env : Env} {P : Key → Cell → Prop} (hP : NewCellsSat e
   refl := Added.refl P
   trans := Added.trans
   congr := Added.congr
+  ins := fun s key v addr => Added.ins_cell s key _ (hP.1 key v addr)
+  insAny := fun s key v addr => Added.ins_cell s key _ (hP.2 key v addr)
+
+/-- for loaders without `get_or_insert` only the cells created by loads matter -/
+theorem Added.mapRel₀ {env : Env} {P : Key → Cell → Prop} (hP : ∀ key v addr, P key (newCell env key.ty v addr)) :
+    MapRel₀ env (Added P) where
+  refl := Added.refl P
+  trans := Added.trans
+  congr := Added.congr
   ins := fun s key v addr => Added.ins_cell s key _ (hP key v addr)
 
 theorem St.Le.mapRel (env : Env) : MapRel env St.Le where
@@ -263,10 +406,23 @@ theorem St.Le.mapRel (env : Env) : MapRel env St.Le where
     rw [St.lookup_congr ht k]
     exact h k c hc
   ins := fun s key _ _ => St.insertKeepFirst_le s key _
+  insAny := fun s key _ _ => St.insertKeepFirst_le s key _
 
-/-- Whatever an evaluation adds to the cache was created by `newCell` under this `env`. -/
+/-- Whatever an evaluation adds to the cache was created by `newCell` or `insertedCell` under this `env`. -/
 theorem eval_added (env : Env) (P) (hP : NewCellsSat env P) (f : Nat) (s : St) (p : Prog) : Added P s (eval env f s p).1 :=
   (Added.mapRel hP).eval_rel f s p
+
+/-- Whatever an evaluation without `get_or_insert` (in the loader and in the type table) adds to the
+cache was created by `newCell` under this `env`. -/
+theorem eval_added_noInsert (env : Env) (henv : env.NoInsert) (P) (hP : ∀ key v addr, P key (newCell env key.ty v addr))
+    (f : Nat) (s : St) (p : Prog) (hp : p.NoInsert) : Added P s (eval env f s p).1 :=
+  (Added.mapRel₀ hP).eval_rel henv f s p hp
+
+theorem MapRel₀.evalTop_rel {env : Env} {R : St → St → Prop} (h : MapRel₀ env R) (henv : env.NoInsert) (fuel : Nat) (s : St)
+    (p : Prog) (hp : p.NoInsert) : R s (evalTop env fuel s p).1 := by
+  unfold evalTop
+  exact h.congr (s := { s with recs := [] }) (t := (eval env fuel { s with recs := [] } p).1) rfl rfl
+    (h.eval_rel henv fuel _ p hp)
 
 /-! ## `reloadUntyped` -/
 
@@ -531,7 +687,7 @@ def St.ridOf (s : St) (k : Key) : Nat :=
   | some c => c.rid
   | none => ReloadId_NEVER
 
-theorem newCells_never (env : Env) : NewCellsSat env (fun _ c => c.rid = ReloadId_NEVER) := fun _ _ _ => rfl
+theorem newCells_never (env : Env) : NewCellsSat env (fun _ c => c.rid = ReloadId_NEVER) := ⟨fun _ _ _ => rfl, fun _ _ _ => rfl⟩
 
 theorem reloadUntyped_ridOf_le (env : Env) (fuel : Nat) (s : St) (key : Key) (k : Key) (c' : Cell)
     (h : (reloadUntyped env fuel s key).1.lookup k = some c') : c'.rid ≤ s.ridOf k + 1 := by
@@ -685,14 +841,9 @@ theorem enhance_ev (env : Env) (fuel : Nat) (s : St) (r : RSt) : s.Ev (enhance e
 
 /-! ## API operations -/
 
-/-- the cell `get_or_insert` creates (`add_any`) -/
-def insertedCell (env : Env) (key : Key) (v : Val) (addr : Nat) : Cell :=
-  { val := v, dyn := insertedEntryDynamic (env.types key.ty).hot env.hasReloader,
-    rid := ReloadId_NEVER, flag := false, addr := addr }
-
-/-- `P` holds of every cell an API operation creates under `env` (by a load or by `get_or_insert`). -/
-def EnvCellsSat (env : Env) (P : Key → Cell → Prop) : Prop :=
-  NewCellsSat env P ∧ ∀ key v addr, P key (insertedCell env key v addr)
+/-- `P` holds of every cell an API operation creates under `env` (by a load or by `get_or_insert`):
+the same as `NewCellsSat` now that loaders may call `get_or_insert` themselves. -/
+abbrev EnvCellsSat (env : Env) (P : Key → Cell → Prop) : Prop := NewCellsSat env P
 
 theorem MapRel.evalTop_rel {env : Env} {R : St → St → Prop} (h : MapRel env R) (fuel : Nat) (s : St) (p : Prog) :
     R s (evalTop env fuel s p).1 := by
@@ -767,8 +918,8 @@ by this operation. -/
 theorem step_added (env : Env) (fuel : Nat) (s : St) (op : Op) (P) (hP : EnvCellsSat env P) :
     Added P s (step env fuel s op).1 := by
   cases op with
-  | load key => rw [step_load_fst]; exact (Added.mapRel hP.1).evalTop_rel fuel s _
-  | loadOwned key => rw [step_loadOwned_fst]; exact (Added.mapRel hP.1).evalTop_rel fuel s _
+  | load key => rw [step_load_fst]; exact (Added.mapRel hP).evalTop_rel fuel s _
+  | loadOwned key => rw [step_loadOwned_fst]; exact (Added.mapRel hP).evalTop_rel fuel s _
   | getCached key => exact Added.refl P s
   | contains key => exact Added.refl P s
   | getOrInsert key v =>
@@ -856,9 +1007,9 @@ theorem hstep_all (fuel : Nat) (e : Env × HOp) (x : St × RSt) (I) (hw : WriteS
   obtain ⟨s, r⟩ := x
   cases op with
   | api op => exact step_all env fuel s op I hP hs
-  | notify evs => exact (allRel_passRel env fuel I hw hP.1).handleEvents_rel s r evs hs
-  | hotReload => exact (allRel_passRel env fuel I hw hP.1).hotReload_rel s r hs
-  | enhance => exact (allRel_passRel env fuel I hw hP.1).enhance_rel s r hs
+  | notify evs => exact (allRel_passRel env fuel I hw hP).handleEvents_rel s r evs hs
+  | hotReload => exact (allRel_passRel env fuel I hw hP).hotReload_rel s r hs
+  | enhance => exact (allRel_passRel env fuel I hw hP).enhance_rel s r hs
 
 theorem runH_all (fuel : Nat) (I) (hw : WriteStable I) (h : List (Env × HOp)) (x : St × RSt)
     (hP : ∀ e ∈ h, EnvCellsSat e.1 I) (hs : x.1.All I) : (runH fuel h x).1.All I := by
